@@ -9,6 +9,7 @@ def rules_for(pid):
 
 def _c01():
     return [
+        ("R-ARG-ORDER", "the command layer does not re-order (sort / reverse / dedup) pairs or list elements it collected from the command's frames before applying them", rules_cmd.make_arg_order_rule("C01")),
         ("R-DISPATCH", "every command named by the property has a dispatcher arm that reaches the storage engine, with the effect class (read-only / mutating) and the storage primitive its reference semantics need",
          rules_cmd.make_dispatch_rule("C01")),
         ("R-BYTES-ENGINE", "every bytes-only argument (key, value, member, field, field map) the command layer hands to the storage engine carries the client's bytes: no lossy / UTF-8-only decoding, case mapping, cutting or sorting on its value flow inside the handler", rules_cmd.make_bytes_engine_rule("C01")),
@@ -38,6 +39,7 @@ def _c02():
 
 def _c04():
     return [
+        ("R-ARG-ORDER", "the command layer does not re-order (sort / reverse / dedup) pairs or list elements it collected from the command's frames before applying them", rules_cmd.make_arg_order_rule("C04")),
         ("R-DISPATCH", "every sorted-set command named by the property has a dispatcher arm reaching the engine with the right effect class and skip-list primitive", rules_cmd.make_dispatch_rule("C04")),
         ("R-BYTES-ENGINE", "every bytes-only argument (key, value, member, field, field map) the command layer hands to the storage engine carries the client's bytes: no lossy / UTF-8-only decoding, case mapping, cutting or sorting on its value flow inside the handler", rules_cmd.make_bytes_engine_rule("C04")),
         ("R-ATOMIC", "a refused multi-member ZADD adds nothing: no validation refusal reachable after the first mutation", rules_cmd.rule_atomic("C04")),
@@ -152,6 +154,7 @@ def _c13():
         ("R-BLK-FOREVER", "behind BLPOP/BRPOP every Duration built from the parsed timeout is reachable only through a non-zero test of that number (every spelling of zero means no deadline; path-sensitive)", rules_block.rule_forever),
         ("R-BLK-PIPELINE", "the loop executing the frames of one read stops (defers the rest) once a frame has left the connection blocked: nothing pipelined behind a blocking pop runs while the client is blocked", rules_block.rule_pipeline),
         ("R-BLK-TIMEOUT-REPLY", "the nil reply of the timeout pass is sent only under a still-Blocked test of the connection (one reply per timed-out command, however many keys it named)", rules_block.rule_timeout_reply),
+        ("R-BLK-EXPIRE-ALL", "the expiry function decides which queue entries to take out by the deadline alone, never under a membership test on connection ids (all registrations of a timed-out client leave in the same pass)", rules_block.rule_expire_all),
         ("R-BLK-EOF", "blocked connections are not excluded from reading (disconnect detection)", rules_block.rule_eof),
         ("R-BLK-UNREGALL", "unregistering a client removes every entry it has in a key's queue (retain, or a removal inside a loop that searches again)", rules_block.rule_unreg_all),
         ("R-BLK-FIFO", "a key's waiter queue is appended at the back, served from the front and otherwise edited only by order-preserving operations", rules_block.rule_fifo),
@@ -176,6 +179,7 @@ def _c14():
 
 def _c15():
     return [
+        ("R-XREAD-COUNT", "a loop reading several streams hands each stream the caller's COUNT itself (no running budget) and ends only by exhaustion of the stream list or with an error", rules_stream.rule_xread_count),
         ("R-DISPATCH", "every stream command named by the property has a dispatcher arm with the right effect class and Stream primitive", rules_cmd.make_dispatch_rule("C15")),
         ("R-BYTES-ENGINE", "every bytes-only argument (key, value, member, field, field map) the command layer hands to the storage engine carries the client's bytes: no lossy / UTF-8-only decoding, case mapping, cutting or sorting on its value flow inside the handler", rules_cmd.make_bytes_engine_rule("C15")),
         ("R-ST-GUARD", "an explicit-ID append is dominated by the `id > last_id` test; the refusal edge has no effect", rules_stream.rule_guard),
@@ -267,6 +271,7 @@ def _c18():
     return [
         ("R-DB", "at every call of a database-taking function on the command path the database operand is never a constant, a function with a database parameter passes it on, and a callee never re-derives a database its caller already determined", rules_db.rule_db),
         ("R-DB-SELECT", "the connection's selected database is stored only under a dominating index < database_count() test", rules_db.rule_select),
+        ("R-LUA-CTX-FRESH", "the Lua state a chunk runs in is built in the same invocation on every path (redis.call captures the caller's database index when the state is built)", rules_panic.rule_lua_ctx_fresh),
         ("R-TX-CONN", "queued commands are re-dispatched with the executing connection's identity (SELECT inside MULTI)", rules_tx.rule_tx_conn),
         ("R-DB-EXEC", "in EXEC's loop the database of each queued command is read from the connection earlier in the same iteration (a queued SELECT governs the commands behind it)", rules_db.rule_exec_db),
         ("R-DB-WAKE", "the wake path of a blocking pop uses the database recorded in the wake-up request (where the client blocked), never the connection's current selection", rules_db.rule_wake_db),
@@ -276,6 +281,7 @@ def _c18():
 
 def _c03():
     return [
+        ("R-ARG-ORDER", "the command layer does not re-order (sort / reverse / dedup) pairs or list elements it collected from the command's frames before applying them", rules_cmd.make_arg_order_rule("C03")),
         ("R-DISPATCH", "every list/set/hash command named by the property has a dispatcher arm reaching the engine with the right effect class and storage primitive (e.g. LPUSH must reach a front insertion, RPOP a back removal)", rules_cmd.make_dispatch_rule("C03")),
         ("R-BYTES-ENGINE", "every bytes-only argument (key, value, member, field, field map) the command layer hands to the storage engine carries the client's bytes: no lossy / UTF-8-only decoding, case mapping, cutting or sorting on its value flow inside the handler", rules_cmd.make_bytes_engine_rule("C03")),
         ("R-ATOMIC", "no validation refusal reachable after a dataset mutation (handlers and engine methods of these commands)", rules_cmd.rule_atomic("C03")),
